@@ -1,6 +1,6 @@
 INIT Init
 NEXT Next
 CONSTANTS
-  MaxLen = 2
+  MaxLen = 3
 INVARIANTS Dump
 CHECK_DEADLOCK FALSE
